@@ -336,3 +336,7 @@ def check(P, R, tier):
            "dropped would count as an ACK. The only holder of the sender half is the reliable sender's Connection, which drops a pair "
            "only when the receiver half is already closed (C14.F2/F3), so no failing history exists while C14 passes.")
     rules(P, R)
+    # Q5: an acknowledgement is the peer's reply to THAT batch: handles resolve only through the FIFO ACK pairing of the
+    # reliable sender's connection, which must not lose its alignment (C14.F1/F2/F4)
+    from ..common import fold
+    fold(R, P, "c14", ("C14.F1", "C14.F2", "C14.F4"), "C12.Q5", 20)
